@@ -474,7 +474,7 @@ def gen_tree(tier, rng):
       for n in (-3, -2, -1, 0, 1, 2):
         for x in rand_inputs(rng, 0.5)[:2]:
           yield {"e": ["pow", leaf, n], "x": x, "zero": "default", "tags": ["powshape", "%dx%d" % (na, nb), "n=%d" % n, xtag(x)]}
-  n = 700 if tier == "quick" else 7000
+  n = 550 if tier == "quick" else 7000
   for i in range(n):
     depth = rng.choice([1, 1, 2, 2, 2, 3, 3, 4])
     causal = rng.random() < 0.45                      # all-causal trees exercise the signal side
@@ -501,7 +501,7 @@ def gen_sys(tier, rng):
       for x in (X4, IMP, ["sym", 3, 1]):
         yield {"kind": kind, "a": a, "b": b, "c": [-2, 3], "n": n, "x": x, "zero": "default",
                "tags": ["edge", kind, xtag(x)]}
-  rounds = 60 if tier == "quick" else 600
+  rounds = 45 if tier == "quick" else 600
   for i in range(rounds):
     for kind in KINDS:
       depth = rng.choice([0, 0, 1, 1, 2])
@@ -594,7 +594,7 @@ def gen_flist(tier, rng):
       for x in (X4, IMP, ["q", []], ["sym", 3, 0], ["sym", 3, 1]):
         for star in (True, False):
           yield {"par": par, "es": es, "x": x, "zero": "int", "star": star, "tags": ["edge", "par" if par else "casc", xtag(x)]}
-  n = 120 if tier == "quick" else 1200
+  n = 100 if tier == "quick" else 1200
   for i in range(n):
     par = rng.random() < 0.5
     k = rng.choice([0, 1, 2, 2, 3, 3, 4])
@@ -651,7 +651,7 @@ def gen_lin(tier, rng):
           ([[[3, 2], ONE], [[1, 1], [-1, 2]], [[2, 1], [-1, 2]]], [[[0, 1], ONE]])]
   for n, d in edge:
     yield {"n": n, "d": d, "tags": ["edge"]}
-  cnt = 250 if tier == "quick" else 2500
+  cnt = 150 if tier == "quick" else 2500
   for i in range(cnt):
     nk = rng.sample(quarter, rng.randrange(0, 5))
     if rng.random() < 0.5:
